@@ -80,11 +80,51 @@ func serverMessage(kind int, n *netEnv) (body []byte, name string) {
 	case 18:
 		b := container([]int64{nextSrvID()}, []int32{2}, [][]byte{mustMarshal(&objects.Pong{MsgID: 1, PingID: 2})})
 		return b[:len(b)-verifrt.Len(len(b)-1)-1], "truncated-container"
+	case 19:
+		return mustMarshal(&objects.BadServerSalt{BadMsgID: i64(), BadMsgSeqNo: i32(), ErrorCode: 48, NewSalt: i64()}), "bad_server_salt-for-unknown-message"
 	}
 	return nil, ""
 }
 
-const nServerMessages = 19
+const nServerMessages = 20
+
+// H_C16_sequence: two server messages in a row (kinds k1, k2; symbolic fields, odd or even seq_no each) reach an
+// idle client, then a request is issued: whatever the first message leaves behind (a lock still held, a table
+// entry, a goroutine) must not stop the loop at the second one.  One step from the idle state says nothing about
+// that; this is two steps.
+func H_C16_sequence(k1, k2 int) {
+	verifrt.SetClock(1600000000, 0, 1000)
+	n := newNetEnv(5)
+	n.m.Warnings = make(chan error)
+	go func() {
+		for range n.m.Warnings {
+		}
+	}()
+	b1, name1 := serverMessage(k1, n)
+	b2, name2 := serverMessage(k2, n)
+	verifrt.Note(name1 + " then " + name2)
+	odd1, odd2 := verifrt.Bool(), verifrt.Bool()
+	crashed := verifrt.Catch(func() {
+		n.start()
+		seq := int32(2)
+		if odd1 {
+			seq = 3
+		}
+		n.deliver(b1, seq)
+		verifrt.Quiesce()
+		seq = 4
+		if odd2 {
+			seq = 5
+		}
+		n.deliver(b2, seq)
+		verifrt.Quiesce()
+		n.probe("after-" + name1 + "-then-" + name2 + "-")
+	})
+	if crashed {
+		verifrt.Note("crash: " + verifrt.PanicMsg())
+	}
+	verifrt.Assert(!crashed, "process-survives")
+}
 
 // H_C16_message: one arbitrary server message of the given kind (odd or even seq_no) reaches a client that is
 // idle; the process survives, the receive loop keeps running and a request issued afterwards completes.
